@@ -18,5 +18,6 @@ mk notyet "/CN=localhost" "DNS:localhost,DNS:good.example,IP:127.0.0.1,IP:10.0.0
 mk otherca-server "/CN=localhost" "DNS:localhost,DNS:good.example,IP:127.0.0.1,IP:10.0.0.2" otherca.key otherca.pem 20250101000000Z 20450101000000Z
 mk client "/CN=verif-client" "DNS:verif-client" ca.key ca.pem 20250101000000Z 20450101000000Z
 mk client-untrusted "/CN=verif-client" "DNS:verif-client" otherca.key otherca.pem 20250101000000Z 20450101000000Z
+mk client-expired "/CN=verif-client" "DNS:verif-client" ca.key ca.pem 20250101000000Z 20280101000000Z
 $O req -x509 -newkey rsa:2048 -nodes -keyout selfsigned.key -out selfsigned.pem -subj "/CN=localhost" -addext "subjectAltName=DNS:localhost,DNS:good.example,IP:127.0.0.1,IP:10.0.0.2" -not_before 20250101000000Z -not_after 20450101000000Z 2>/dev/null
 rm -f *.srl
